@@ -5,12 +5,21 @@ case = {"kind":  "build" | "parse" | "newline",
         "dak":   bool                       (Release only: size_field_behavior = "dak")
         "items": [ ["s", field, [[token, ...], ...], single_line], ["p", name, value], ... ]
         "pad":   int                        (parse: width the harness pads the size column to)
+        "fold":  [field, ...]               (parse: fields written with their first record on the header line)
+        "want":  null | [name, ...]         (parse: the documented fields= parameter, null = not passed)
+        "via":   "ctor" | "iter"            (parse: cls(text, ...) or the one paragraph of cls.iter_paragraphs(text, ...))
         "nl":    [item, record, component, position]   (newline: where a "\\n" is injected)}
 
   build    assign the records (lists of dicts keyed by the documented sub-field names) into an
            empty instance in the order of "items", dump, inspect the text, parse it again
   parse    the harness writes the text in the documented column order, parses it, compares the
-           records, dumps (must not fail whatever subset is present), parses the dump again
+           records, dumps (must not fail whatever subset is present), parses the dump again.
+           The text is one record per continuation line under a bare "Field:" header (what dump()
+           writes) or, for the fields in "fold" that have >= 2 records, the folded spelling with
+           record 0 on the header line ("Files: aa 1 n0\n bb 2 n1").  With "want" the parse is
+           asked for a subset of the fields that are in the text (ordinary and structured, any
+           position): the result must hold exactly those fields, each with exactly its own
+           records / value, and must dump like a paragraph that only ever held them.
   newline  as build, but one component contains a newline: dump must raise ValueError
 
 A structured item lists its tokens in the documented sub-field order of DOC below; "single_line"
@@ -36,8 +45,19 @@ RULE = ("cases are (class x Release size_field_behavior, ordered list of structu
         "three records of different size widths up to 16 / sizes of 17 and 18 digits with non-ASCII "
         "tokens) x both directions; generated: Hypothesis subsets (sparse, half, dense), permuted "
         "assignment order, tokens from a 70-token pool of format meta-characters and non-ASCII "
-        "letters, sizes of 1..18 digits, harness padding 0/16/20, newline injection. "
-        "Non-trivial = a non-empty strict subset of the class's structured fields is present; "
+        "letters, sizes of 1..18 digits, harness padding 0/16/20, newline injection; edit histories "
+        "(1..3 assignments / in-place list changes / deletions on one object, a dump after each). "
+        "Parse direction additionally: layout (bare 'Field:' header + one line per record, or the "
+        "folded spelling with record 0 on the header line for any subset of the fields with >= 2 "
+        "records), the documented fields= parameter (any non-empty subset of the fields in the text, "
+        "ordinary and structured, any position: the result must hold exactly those fields with exactly "
+        "their own records and dump like a paragraph that only held them) and the entry point "
+        "(constructor | the one paragraph of iter_paragraphs); enumerated: all-folded spelling of "
+        "every enumerated subset, and for the four-field classes every (present subset, wanted "
+        "sub-subset, wanted ordinary fields, entry point, layout), for PdiffIndex all/all-but-one/one "
+        "field present x wanted all-but-one/one/every-other. "
+        "Non-trivial = a non-empty strict subset of the class's structured fields is present (in the "
+        "text or, with fields=, in the result) or an edit history with >= 1 applied step; "
         "distinct = distinct canonical JSON")
 ASSUMPTIONS = [
     "sub-field names and column order are the table in the module docstring of deb822.py (copied "
@@ -48,13 +68,21 @@ ASSUMPTIONS = [
     "alignment: one blank, hash, one blank, size right-aligned in a column of width W "
     "(16 for apt-ftparchive, longest size of that field for dak and PdiffIndex); a size longer "
     "than W is printed unpadded; the single-line *-Current form is not padded",
+    "the folded spelling 'Field: rec0\\n rec1' of a structured field is inside 'parsing exposes each "
+    "line as a record': the format lets a folded value start on the header line and the pinned "
+    "commit reads it as the records in order (one record alone on the header line is the "
+    "single-line dict form, so folding needs >= 2 records)",
+    "fields= names are compared with the spelling used in the text (the harness uses the documented "
+    "spelling for both); a parse that wants nothing at all is not generated",
     "Hypothesis 6.168 generators; sha1 for distinctness",
 ]
 EXHAUSTIVE = {
     "quick": "all 16 subsets of the structured fields of Dsc, Changes, BuildInfo, Release x {apt-ftparchive, dak}; "
-             "all subsets of size <=2 or >=12 of the 14 PdiffIndex fields; x 3 record sets x {build, parse}",
+             "all subsets of size <=2 or >=12 of the 14 PdiffIndex fields; x 3 record sets x {build, parse}; "
+             "parse-layouts-and-field-filters: see that source's description",
     "thorough": "all 16 subsets of the structured fields of Dsc, Changes, BuildInfo, Release x {apt-ftparchive, dak}; "
-                "all 2^14 subsets of the PdiffIndex fields; x 3 record sets x {build, parse}",
+                "all 2^14 subsets of the PdiffIndex fields; x 3 record sets x {build, parse}; "
+                "parse-layouts-and-field-filters: see that source's description",
 }
 BUDGET = {"quick": 300, "thorough": 1500}
 
@@ -174,8 +202,17 @@ def valid_case(case):
         if name.lower() in seen:
             return False
         seen.add(name.lower())
-    if case["kind"] == "parse" and not isinstance(case.get("pad", 0), int):
-        return False
+    if case["kind"] == "parse":
+        if not isinstance(case.get("pad", 0), int) or case.get("via", "ctor") not in ("ctor", "iter"):
+            return False
+        fold = case.get("fold", [])
+        if not isinstance(fold, list) or not all(isinstance(f, str) and f in sub for f in fold):
+            return False
+        want = case.get("want")
+        names = [it[1] for it in case["items"]]
+        if want is not None and not (isinstance(want, list) and want and len(set(want)) == len(want)
+                                     and all(w in names for w in want)):
+            return False
     if case["kind"] == "newline":
         nl = case.get("nl")
         if not (isinstance(nl, list) and len(nl) == 4 and all(isinstance(x, int) and x >= 0 for x in nl)):
@@ -331,6 +368,7 @@ def assign_items(o, case, items):
 def harness_text(case):
     sub = SUBFIELDS[case["cls"]]
     pad = case.get("pad", 0)
+    fold = case.get("fold", []) if case["kind"] == "parse" else []
     out = []
     for it in case["items"]:
         if it[0] == "p":
@@ -338,12 +376,30 @@ def harness_text(case):
         elif it[3]:
             out.append("%s: %s\n" % (it[1], " ".join(it[2][0])))
         else:
-            out.append("%s:\n" % it[1])
             si = sub[it[1]].index("size")
-            for r in it[2]:
-                cols = [t.rjust(pad) if i == si else t for i, t in enumerate(r)]
-                out.append(" " + " ".join(cols) + "\n")
+            lines = [" ".join(t.rjust(pad) if i == si else t for i, t in enumerate(r)) for r in it[2]]
+            if is_folded(it, fold):
+                # folded spelling: the value starts on the header line (one record there alone
+                # would be the single-line form, hence >= 2 records)
+                out.append("%s: %s\n" % (it[1], lines[0]))
+                lines = lines[1:]
+            else:
+                out.append("%s:\n" % it[1])
+            for l in lines:
+                out.append(" " + l + "\n")
     return "".join(out)
+
+
+def is_folded(it, fold):
+    return it[0] == "s" and not it[3] and len(it[2]) >= 2 and it[1] in fold
+
+
+def wanted_view(case):
+    """The case a parse with fields=case["want"] must be indistinguishable from."""
+    want = case.get("want")
+    if case["kind"] != "parse" or want is None:
+        return case
+    return dict(case, items=[it for it in case["items"] if it[1] in want])
 
 
 def labels_of(case):
@@ -381,9 +437,33 @@ def labels_of(case):
     idx = [doc_order.index(it[1]) for it in sitems]
     if idx != sorted(idx):
         labels.add("fields-out-of-documented-order")
+    nontrivial = 0 < n < len(sub)
     if case["kind"] == "parse":
         labels.add("harness-pad:%d" % case.get("pad", 0))
-    return 0 < n < len(sub), labels
+        labels.add("via:" + case.get("via", "ctor"))
+        fold = case.get("fold", [])
+        nf = sum(1 for it in sitems if is_folded(it, fold))
+        multi = sum(1 for it in sitems if not it[3])
+        labels.add("layout:" + ("canonical" if nf == 0 else "all-folded" if nf == multi else "some-folded"))
+        want = case.get("want")
+        if want is not None:
+            labels.add("fields=")
+            prev = "start"
+            for it in case["items"]:
+                w = "wanted" if it[1] in want else "unwanted"
+                shape = "ordinary" if it[0] == "p" else "single-line" if it[3] else \
+                    "folded" if is_folded(it, fold) else "bare-header"
+                if w == "unwanted":
+                    labels.add("fields=:unwanted-%s-after-%s" % (shape, prev))
+                elif prev.startswith("unwanted"):
+                    labels.add("fields=:wanted-%s-after-unwanted" % shape)
+                prev = w if w == "wanted" else "unwanted"
+            if prev == "unwanted":
+                labels.add("fields=:unwanted-last")
+            nw = sum(1 for it in sitems if it[1] in want)
+            labels.add("fields=:structured-" + ("none" if nw == 0 else "all" if nw == n else "some"))
+            nontrivial = nontrivial or 0 < nw < len(sub)
+    return nontrivial, labels
 
 
 # ------------------------------------------------------------------------------------------
@@ -412,14 +492,35 @@ def check(case):
     elif kind == "parse":
         cls = getattr(deb822, case["cls"])
         text = harness_text(case)
-        o = cls(text)
+        want = case.get("want")
+        kwargs = {} if want is None else {"fields": list(want)}
+        phase = "parsed" if want is None else "parsed with fields=%s" % short(want, 100)
+        if case.get("via", "ctor") == "iter":
+            paras = list(cls.iter_paragraphs(text, **kwargs))
+            if len(paras) != 1:
+                raise Violation("paragraph-count", "%s: iter_paragraphs gave %d paragraphs for the one in %s" % (
+                    phase, len(paras), short(text, 150)))
+            o = paras[0]
+            if not isinstance(o, cls):
+                raise Violation("paragraph-type", "%s: iter_paragraphs of %s gave a %s" % (
+                    phase, case["cls"], type(o).__name__))
+        else:
+            o = cls(text, **kwargs)
         if case["cls"] == "Release" and case.get("dak"):
             o.size_field_behavior = "dak"
-        compare_records(o, case, "parsed")
-        d = dump_or_violation(o, case, "parsed")
-        check_layout(d, case, "parsed")
+        # what was asked for is all there is: the unwanted fields are gone, lines and all
+        exp = wanted_view(case)
+        if want is not None:
+            got_names = [str(k) for k in o.keys()]
+            exp_names = [it[1] for it in exp["items"]]
+            if got_names != exp_names:
+                raise Violation("fields-filter-field-list", "%s: paragraph holds %s, the text's wanted fields are %s" % (
+                    phase, short(got_names, 150), short(exp_names, 150)))
+        compare_records(o, exp, phase)
+        d = dump_or_violation(o, exp, phase)
+        check_layout(d, exp, phase)
         o3 = cls(d)
-        compare_records(o3, case, "parsed, dumped, parsed")
+        compare_records(o3, exp, phase + ", dumped, parsed")
 
     elif kind == "edit":
         # One object, several dumps: what dump() prints is a function of the current content only,
@@ -580,6 +681,80 @@ def enum_cases(full):
     return gen
 
 
+def submasks(mask):
+    sub = mask
+    while True:
+        yield sub
+        if sub == 0:
+            return
+        sub = (sub - 1) & mask
+
+
+def with_parse_options(case, fold_all, want, via):
+    if fold_all:
+        case["fold"] = [it[1] for it in case["items"] if it[0] == "s" and not it[3]]
+    if want is not None:
+        case["want"] = want
+    case["via"] = via
+    return case
+
+
+def enum_layout_cases(full):
+    """The parse direction once more: every present subset written folded, and every way of asking
+    for part of what is present through fields=."""
+    four = (("Dsc", False), ("Changes", False), ("BuildInfo", False), ("Release", False), ("Release", True))
+
+    def gen():
+        # (a) folded spelling of every multi-record field (variant 0 has one record per field)
+        for clsname, dak in four:
+            for mask in range(1, 16):
+                for variant in (1, 2):
+                    yield with_parse_options(enum_case(clsname, dak, mask, variant, "parse"), True, None, "ctor")
+        for mask in pdiff_masks(full):
+            if mask:
+                for variant in (1, 2):
+                    yield with_parse_options(enum_case("PdiffIndex", False, mask, variant, "parse"), True, None, "ctor")
+        # (b) fields=: present subset x wanted sub-subset x which of the two ordinary fields are wanted
+        for clsname, dak in four:
+            names = [f for f, _ in DOC[clsname]]
+            for mask in range(16):
+                for wmask in submasks(mask):
+                    for plain in (["Origin", "Date"], ["Origin"], ["Date"], []):
+                        want = plain + [names[i] for i in range(4) if wmask >> i & 1]
+                        if not want:
+                            continue
+                        for via in ("ctor", "iter"):
+                            for fold_all in (False, True):
+                                yield with_parse_options(enum_case(clsname, dak, mask, 1, "parse"), fold_all, want, via)
+        # PdiffIndex: all 14 fields, each all-but-one and each singleton present; wanted: all but
+        # one, just one, every other one; the *-Current fields single-line (variant 0) or not
+        names = [f for f, _ in DOC["PdiffIndex"]]
+        n = len(names)
+        top = (1 << n) - 1
+        for mask in [top] + [top & ~(1 << i) for i in range(n)] + [1 << i for i in range(n)]:
+            have = [names[i] for i in range(n) if mask >> i & 1]
+            wants = []
+            for k in range(len(have)):
+                wants.append(["Origin", "Date"] + have[:k] + have[k + 1:])
+                wants.append([have[k]])
+            wants.extend([["Origin"] + have[0::2], ["Date"] + have[1::2], have[0::2], have[1::2]])
+            for variant in (0, 1):
+                for j, want in enumerate(wants):
+                    base = enum_case("PdiffIndex", False, mask, variant, "parse")
+                    present = [it[1] for it in base["items"]]
+                    want = [w for w in want if w in present]
+                    if want:
+                        yield with_parse_options(base, j % 2 == 1, want, ("ctor", "iter")[(j // 2) % 2])
+    return gen
+
+
+LAYOUTS_DESC = ("parse direction: every enumerated subset (three- and two-record sets) with all fields folded; "
+                "fields=: Dsc, Changes, BuildInfo, Release x {apt-ftparchive, dak}: every subset present x every "
+                "sub-subset wanted x every subset of the two ordinary fields wanted x {constructor, iter_paragraphs} "
+                "x {canonical, folded}; PdiffIndex with all / all-but-one / one field present: wanted = all but one, "
+                "just one, every other one")
+
+
 # ------------------------------------------------------------------------------------------
 # generated cases
 
@@ -645,6 +820,16 @@ def gen_case(draw):
     case = {"kind": kind, "cls": clsname, "dak": dak, "items": items}
     if kind == "parse":
         case["pad"] = draw(st.sampled_from([0, 16, 20, 0]))
+        # bit 0: some fields folded, bit 1: parse with fields=, bit 2: through iter_paragraphs
+        opt = draw(st.integers(0, 7))
+        if opt & 1 and items:
+            fmask = draw(st.integers(0, (1 << len(items)) - 1))
+            case["fold"] = [it[1] for i, it in enumerate(items) if it[0] == "s" and not it[3] and fmask >> i & 1]
+        if opt & 2:
+            wmask = draw(st.integers(1, (1 << len(items)) - 1))
+            case["want"] = [it[1] for i, it in enumerate(items) if wmask >> i & 1]
+        if opt & 4:
+            case["via"] = "iter"
     if kind == "newline":
         case["nl"] = [draw(st.integers(0, 13)), draw(st.integers(0, 3)), draw(st.integers(0, 4)), draw(st.integers(0, 8))]
     return case
@@ -688,8 +873,10 @@ def gen_edit_case(draw):
 def sources(tier):
     if tier == "quick":
         return [Enum("field-subsets", enum_cases(False), EXHAUSTIVE["quick"]),
+                Enum("parse-layouts-and-field-filters", enum_layout_cases(False), LAYOUTS_DESC),
                 Hyp("records", gen_case(), 350, shards=8),
                 Hyp("edit-histories", gen_edit_case(), 250, shards=6)]
     return [Enum("field-subsets-all", enum_cases(True), EXHAUSTIVE["thorough"]),
+            Enum("parse-layouts-and-field-filters", enum_layout_cases(True), LAYOUTS_DESC),
             Hyp("records", gen_case(), 5000, shards=16),
             Hyp("edit-histories", gen_edit_case(), 4000, shards=12)]
